@@ -8,7 +8,7 @@ from . import arena, build, tlc
 
 
 from .engines_common import Result  # noqa: E402
-from . import handlers, tok  # noqa: E402
+from . import handlers, tok, printf  # noqa: E402
 
 
 # --------------------------------------------------------------------------------------
@@ -117,9 +117,18 @@ def run_arena(prop, tier, seed, workdir, families=None):
 
 NO_SRC = set(ARENA_FAMILIES['fill']['fns'] + ARENA_FAMILIES['xform']['fns'])
 
-ENGINES = {"C13": handlers.run, "C14": tok.run}
-for _p in ("C01", "C02", "C03", "C04", "C05", "C06", "C07", "C08"):
+def run_arena_and_printf(prop, tier, seed, workdir):
+    res = run_arena(prop, tier, seed, workdir)
+    printf.run_props(prop, tier, seed, workdir, res)
+    res.coverage["rule"] += "; plus the formatted-output family (GenPrintf/TracePrintf, see coverage.printf_cases)"
+    return res
+
+
+ENGINES = {"C13": handlers.run, "C14": tok.run, "C09": printf.run_c09, "C11": printf.run_c11}
+for _p in ("C02", "C06", "C07"):
     ENGINES[_p] = run_arena
+for _p in ("C01", "C03", "C04", "C05", "C08"):
+    ENGINES[_p] = run_arena_and_printf
 
 
 def replay(prop, path, workdir):
@@ -134,6 +143,10 @@ def replay(prop, path, workdir):
                                            replay=dict(kind="arena", case=b["case"], flavour=b["flavour"], place=b["place"],
                                                        observed=b["event"], props=b["props"])))
         print("replayed 1 case: observed", json.dumps(bad[0]["event"] if bad else "conforming"))
+    elif rp["kind"] == "printf":
+        res = printf.replay(rp, workdir)
+        res.violations = [v for v in res.violations if prop in v.get("props", [prop])]
+        return res
     elif rp["kind"] == "tok":
         return tok.replay(rp, workdir)
     elif rp["kind"] == "handlers":
